@@ -1,5 +1,6 @@
 import Mathlib.Analysis.InnerProductSpace.Basic
 import Mathlib.Analysis.Real.Sqrt
+import Mathlib.Analysis.InnerProductSpace.PiL2
 /-
   Helper lemmas for C13 (real inner-product space algebra; no sigpy content).
 -/
@@ -143,6 +144,311 @@ theorem fejer_core (A : E →ₗ[ℝ] F) (AH : F → E) (hadj : ∀ x u, ⟪A x,
   nlinarith
 
 end two
+
+/-! ### array-valued ("diagonal") steps: a step acting on the space as an operator -/
+
+/-- A step size as the code uses it: the operator `v ↦ τ ⊙ v` (`util.axpy(x, -tau, ·)` multiplies
+    elementwise) together with its inverse `v ↦ v / τ` (the weight of `norm(v / tau**0.5)**2` and of the
+    prox).  A scalar step is `τ • id`; an array step is `diag(τ_i)`. -/
+structure StepOp (E : Type*) [NormedAddCommGroup E] [InnerProductSpace ℝ E] where
+  op : E →ₗ[ℝ] E
+  inv : E →ₗ[ℝ] E
+
+set_option linter.unusedSimpArgs false
+namespace StepOp
+variable {G : Type*} [NormedAddCommGroup G] [InnerProductSpace ℝ G]
+
+/-- `-tau` -/
+instance : Neg (StepOp G) := ⟨fun T => ⟨-T.op, -T.inv⟩⟩
+/-- `tau * v` (elementwise) -/
+instance : SMul (StepOp G) G := ⟨fun T v => T.op v⟩
+/-- `tau *= theta` -/
+noncomputable instance : SMul ℝ (StepOp G) := ⟨fun c T => ⟨c • T.op, c⁻¹ • T.inv⟩⟩
+/-- `tau /= theta` -/
+noncomputable instance : HDiv (StepOp G) ℝ (StepOp G) := ⟨fun T c => ⟨c⁻¹ • T.op, c • T.inv⟩⟩
+
+/-- the scalar step `τ` -/
+noncomputable def scalar (τ : ℝ) : StepOp G := ⟨τ • LinearMap.id, τ⁻¹ • LinearMap.id⟩
+
+/-- "all entries of the step are positive": `inv` inverts `op`, and `⟨T⁻¹·,·⟩` is a symmetric positive
+    definite form (for `T = diag(τ_i)`: `Σ_i |v_i|²/τ_i`, every `τ_i > 0`). -/
+structure Pos (T : StepOp G) : Prop where
+  left_inv : ∀ x, T.inv (T.op x) = x
+  right_inv : ∀ x, T.op (T.inv x) = x
+  symm : ∀ x y, ⟪T.inv x, y⟫ = ⟪x, T.inv y⟫
+  pos : ∀ x, x ≠ 0 → 0 < ⟪T.inv x, x⟫
+
+theorem smul_act (T : StepOp G) (v : G) : T • v = T.op v := rfl
+theorem neg_act (T : StepOp G) (v : G) : (-T) • v = -(T.op v) := rfl
+theorem smul_op (c : ℝ) (T : StepOp G) : (c • T).op = c • T.op := rfl
+theorem smul_inv (c : ℝ) (T : StepOp G) : (c • T).inv = c⁻¹ • T.inv := rfl
+theorem div_op (c : ℝ) (T : StepOp G) : (T / c).op = c⁻¹ • T.op := rfl
+theorem div_inv (c : ℝ) (T : StepOp G) : (T / c).inv = c • T.inv := rfl
+
+theorem Pos.nonneg {T : StepOp G} (h : T.Pos) (x : G) : 0 ≤ ⟪T.inv x, x⟫ := by
+  by_cases hx : x = 0
+  · simp [hx]
+  · exact (h.pos x hx).le
+
+theorem Pos.eq_zero {T : StepOp G} (h : T.Pos) {x : G} (hx : ⟪T.inv x, x⟫ ≤ 0) : x = 0 := by
+  by_contra hne
+  exact absurd (h.pos x hne) (not_lt.mpr hx)
+
+/-- a positive scalar step is a positive step -/
+theorem scalar_pos {τ : ℝ} (hτ : 0 < τ) : (scalar τ : StepOp G).Pos where
+  left_inv x := by simp [scalar, smul_smul, hτ.ne']
+  right_inv x := by simp [scalar, smul_smul, hτ.ne']
+  symm x y := by simp [scalar, real_inner_smul_left, real_inner_smul_right]
+  pos x hx := by
+    simp only [scalar, LinearMap.smul_apply, LinearMap.id_apply, real_inner_smul_left]
+    have : 0 < ⟪x, x⟫ := by rw [real_inner_self_eq_norm_sq]; positivity
+    positivity
+
+/-- rescaling by a positive factor (`tau *= theta`) keeps a step positive -/
+theorem Pos.smul {T : StepOp G} (h : T.Pos) {c : ℝ} (hc : 0 < c) : (c • T).Pos where
+  left_inv x := by
+    simp only [smul_op, smul_inv, LinearMap.smul_apply, map_smul, smul_smul, h.left_inv,
+      inv_mul_cancel₀ hc.ne', inv_mul_cancel₀ hc.ne', mul_inv_cancel₀ hc.ne', one_smul]
+  right_inv x := by
+    simp only [smul_op, smul_inv, LinearMap.smul_apply, map_smul, smul_smul, h.right_inv,
+      inv_mul_cancel₀ hc.ne', mul_inv_cancel₀ hc.ne', one_smul]
+  symm x y := by
+    simp only [smul_inv, LinearMap.smul_apply, real_inner_smul_left, real_inner_smul_right, h.symm]
+  pos x hx := by
+    simp only [smul_inv, LinearMap.smul_apply, real_inner_smul_left]
+    exact mul_pos (inv_pos.mpr hc) (h.pos x hx)
+
+/-- `tau /= theta` with `theta > 0` keeps a step positive -/
+theorem Pos.div {T : StepOp G} (h : T.Pos) {c : ℝ} (hc : 0 < c) : (T / c).Pos where
+  left_inv x := by
+    simp only [div_op, div_inv, LinearMap.smul_apply, map_smul, smul_smul, h.left_inv,
+      inv_mul_cancel₀ hc.ne', mul_inv_cancel₀ hc.ne', one_smul]
+  right_inv x := by
+    simp only [div_op, div_inv, LinearMap.smul_apply, map_smul, smul_smul, h.right_inv,
+      inv_mul_cancel₀ hc.ne', inv_mul_cancel₀ hc.ne', mul_inv_cancel₀ hc.ne', one_smul]
+  symm x y := by
+    simp only [div_inv, LinearMap.smul_apply, real_inner_smul_left, real_inner_smul_right, h.symm]
+  pos x hx := by
+    simp only [div_inv, LinearMap.smul_apply, real_inner_smul_left]
+    exact mul_pos hc (h.pos x hx)
+
+end StepOp
+
+/-- Variational characterisation of the prox with an operator step, i.e. in the `T⁻¹`-weighted inner
+    product: `p = argmin_w g(w) + ½⟨T⁻¹(w - v), w - v⟩  ⇔  ∀ w, g(w) ≥ g(p) + ⟨T⁻¹(v - p), w - p⟩`.
+    For `T = diag(τ_i)` and a separable `g = Σ g_i` this is the elementwise prox with step `τ_i` in
+    entry `i` — what `proxg(tau, ·)` of sigpy.prox computes when `tau` is an array. -/
+def IsProxW (g : E → ℝ) (T : StepOp E) (v p : E) : Prop :=
+  ∀ w, g p + ⟪T.inv (v - p), w - p⟫ ≤ g w
+
+/-- for a scalar step the weighted characterisation is the usual one -/
+theorem isProxW_scalar (g : E → ℝ) (α : ℝ) (v p : E) :
+    IsProxW g (StepOp.scalar α) v p ↔ IsProx g α v p := by
+  unfold IsProxW IsProx StepOp.scalar
+  simp only [LinearMap.smul_apply, LinearMap.id_apply, one_div]
+
+theorem isProxW_unique {g : E → ℝ} {T : StepOp E} (hT : T.Pos) {v p q : E}
+    (hp : IsProxW g T v p) (hq : IsProxW g T v q) : p = q := by
+  have h1 := hp q
+  have h2 := hq p
+  have e : ⟪T.inv (v - p), q - p⟫ + ⟪T.inv (v - q), p - q⟫ = ⟪T.inv (p - q), p - q⟫ := by
+    have hs := hT.symm p q
+    simp only [map_sub, inner_sub_left, inner_sub_right] at hs ⊢
+    have s1 := hT.symm v p
+    have s2 := hT.symm v q
+    linarith
+  have h3 : ⟪T.inv (p - q), p - q⟫ ≤ 0 := by rw [← e]; linarith
+  exact sub_eq_zero.mp (hT.eq_zero h3)
+
+theorem isProxW_shift_iff (g : E → ℝ) {T : StepOp E} (hT : T.Pos) (p d : E) :
+    IsProxW g T (p + T.op d) p ↔ ∀ w, g p + ⟪d, w - p⟫ ≤ g w := by
+  unfold IsProxW
+  rw [add_sub_cancel_left, hT.left_inv]
+
+section twoW
+variable {F : Type*} [NormedAddCommGroup F] [InnerProductSpace ℝ F]
+
+/-- the coupled squared distance for operator steps:
+    `⟨T⁻¹a, a⟩ - 2⟨A a, b⟩ + ⟨Σ⁻¹b, b⟩` -/
+noncomputable def coupledW (A : E → F) (T : StepOp E) (Sg : StepOp F) (a : E) (b : F) : ℝ :=
+  ⟪T.inv a, a⟫ - 2 * ⟪A a, b⟫ + ⟪Sg.inv b, b⟫
+
+/-- algebraic core of the Fejér inequality for operator steps (same identity as `fejer_core`, with
+    `(1/τ)⟨·,·⟩` replaced by the symmetric form `⟨T⁻¹·,·⟩`) -/
+theorem fejer_coreW (A : E →ₗ[ℝ] F) (AH : F → E) (hadj : ∀ x u, ⟪A x, u⟫ = ⟪x, AH u⟫)
+    (T : StepOp E) (Sg : StepOp F) (hT : ∀ x y, ⟪T.inv x, y⟫ = ⟪x, T.inv y⟫)
+    (hS : ∀ x y, ⟪Sg.inv x, y⟫ = ⟪x, Sg.inv y⟫) (x x1 xs : E) (u1 u2 us : F)
+    (hP : ⟪T.inv (x - x1), xs - x1⟫ - ⟪AH u1, xs - x1⟫ - ⟪AH us, x1 - xs⟫ ≤ 0)
+    (hD : ⟪Sg.inv (u1 - u2), us - u2⟫ + ⟪A (x1 + (x1 - x)), us - u2⟫ + ⟪A xs, u2 - us⟫ ≤ 0) :
+    coupledW A T Sg (x1 - xs) (u2 - us) + coupledW A T Sg (x1 - x) (u2 - u1)
+      ≤ coupledW A T Sg (x - xs) (u1 - us) := by
+  have hA1 : ⟪AH u1, xs - x1⟫ = ⟪A (xs - x1), u1⟫ := (real_inner_comm _ _).trans (hadj _ _).symm
+  have hA2 : ⟪AH us, x1 - xs⟫ = ⟪A (x1 - xs), us⟫ := (real_inner_comm _ _).trans (hadj _ _).symm
+  rw [hA1, hA2] at hP
+  unfold coupledW
+  simp only [map_sub, map_add, inner_sub_left, inner_sub_right, inner_add_left] at hP hD ⊢
+  have sy : ∀ a b : E, ⟪T.inv a, b⟫ = ⟪T.inv b, a⟫ := fun a b => (hT a b).trans (real_inner_comm _ _)
+  have sz : ∀ a b : F, ⟪Sg.inv a, b⟫ = ⟪Sg.inv b, a⟫ := fun a b => (hS a b).trans (real_inner_comm _ _)
+  have s1 := sy x x1
+  have s2 := sy x xs
+  have s3 := sy x1 xs
+  have s4 := sz u1 u2
+  have s5 := sz u1 us
+  have s6 := sz u2 us
+  linarith
+
+end twoW
+
+
+/-! ### the concrete case: arrays on `ℝⁿ`, matrices, and Pock–Chambolle's diagonal preconditioning rule -/
+section concrete
+
+/-- elementwise multiplication by the array `τ` on `ℝⁿ` -/
+noncomputable def mulVecOp {n : ℕ} (τ : Fin n → ℝ) : EuclideanSpace ℝ (Fin n) →ₗ[ℝ] EuclideanSpace ℝ (Fin n) where
+  toFun x := WithLp.toLp 2 (fun i => τ i * x i)
+  map_add' x y := by ext i; simp [mul_add]
+  map_smul' c x := by ext i; simp; ring
+
+/-- the array-valued step `tau` on `ℝⁿ`: multiply / divide elementwise -/
+noncomputable def StepOp.diag {n : ℕ} (τ : Fin n → ℝ) : StepOp (EuclideanSpace ℝ (Fin n)) :=
+  ⟨mulVecOp τ, mulVecOp (fun i => (τ i)⁻¹)⟩
+
+theorem StepOp.diag_pos {n : ℕ} (τ : Fin n → ℝ) (hτ : ∀ i, 0 < τ i) : (StepOp.diag τ).Pos where
+  left_inv x := by
+    ext i; simp [StepOp.diag, mulVecOp, (hτ i).ne']
+  right_inv x := by
+    ext i; simp [StepOp.diag, mulVecOp, (hτ i).ne']
+  symm x y := by
+    simp only [StepOp.diag, mulVecOp, LinearMap.coe_mk, AddHom.coe_mk, PiLp.inner_apply]
+    apply Finset.sum_congr rfl
+    intro i _
+    simp; ring
+  pos x hx := by
+    simp only [StepOp.diag, mulVecOp, LinearMap.coe_mk, AddHom.coe_mk, PiLp.inner_apply]
+    have hne : ∃ i, x i ≠ 0 := by
+      by_contra h
+      push Not at h
+      exact hx (by ext i; simp [h i])
+    obtain ⟨i, hi⟩ := hne
+    apply Finset.sum_pos'
+    · intro j _
+      simp
+      have h1 : 0 < (τ j)⁻¹ := inv_pos.mpr (hτ j)
+      nlinarith [mul_self_nonneg (x.ofLp j)]
+    · refine ⟨i, Finset.mem_univ i, ?_⟩
+      simp
+      have h1 : 0 < (τ i)⁻¹ := inv_pos.mpr (hτ i)
+      have h2 : 0 < x.ofLp i * x.ofLp i := mul_self_pos.mpr hi
+      nlinarith [mul_pos h1 h2]
+
+theorem two_mul_le_of_sq_le {a b c : ℝ} (ha : 0 ≤ a) (hb : 0 ≤ b) (h : c ^ 2 ≤ a * b) : 2 * |c| ≤ a + b := by
+  by_contra hc
+  rw [not_le] at hc
+  have h0 : 0 ≤ a + b := by linarith
+  have h1 : (a + b) ^ 2 < (2 * |c|) ^ 2 := by
+    apply pow_lt_pow_left₀ hc h0 (by norm_num)
+  have h2 : (2 * |c|) ^ 2 = 4 * c ^ 2 := by rw [mul_pow, sq_abs]; norm_num
+  nlinarith [sq_nonneg (a - b)]
+
+/-- finite-sum core of Pock–Chambolle's diagonal preconditioning lemma -/
+theorem pock_chambolle_sum {m n : ℕ} (M : Fin m → Fin n → ℝ) (ti : Fin n → ℝ) (si : Fin m → ℝ)
+    (p q : Fin m → Fin n → ℝ) (hp : ∀ i j, 0 ≤ p i j) (hq : ∀ i j, 0 ≤ q i j)
+    (hpq : ∀ i j, (M i j) ^ 2 ≤ p i j * q i j)
+    (hcol : ∀ j, ∑ i, p i j ≤ ti j) (hrow : ∀ i, ∑ j, q i j ≤ si i) (x : Fin n → ℝ) (u : Fin m → ℝ) :
+    2 * |∑ i, (∑ j, M i j * x j) * u i| ≤ ∑ j, ti j * x j ^ 2 + ∑ i, si i * u i ^ 2 := by
+  have hterm : ∀ i j, 2 * |M i j * x j * u i| ≤ p i j * x j ^ 2 + q i j * u i ^ 2 := by
+    intro i j
+    apply two_mul_le_of_sq_le (mul_nonneg (hp i j) (sq_nonneg _)) (mul_nonneg (hq i j) (sq_nonneg _))
+    have := mul_le_mul_of_nonneg_right (hpq i j) (mul_nonneg (sq_nonneg (x j)) (sq_nonneg (u i)))
+    nlinarith
+  have h1 : |∑ i, (∑ j, M i j * x j) * u i| ≤ ∑ i, ∑ j, |M i j * x j * u i| := by
+    calc |∑ i, (∑ j, M i j * x j) * u i| ≤ ∑ i, |(∑ j, M i j * x j) * u i| := Finset.abs_sum_le_sum_abs _ _
+      _ ≤ ∑ i, ∑ j, |M i j * x j * u i| := by
+        apply Finset.sum_le_sum; intro i _
+        rw [Finset.sum_mul]
+        exact Finset.abs_sum_le_sum_abs _ _
+  have h2 : 2 * ∑ i, ∑ j, |M i j * x j * u i| ≤ ∑ i, ∑ j, (p i j * x j ^ 2 + q i j * u i ^ 2) := by
+    rw [Finset.mul_sum]
+    apply Finset.sum_le_sum; intro i _
+    rw [Finset.mul_sum]
+    apply Finset.sum_le_sum; intro j _
+    exact hterm i j
+  have h3 : ∑ i, ∑ j, (p i j * x j ^ 2 + q i j * u i ^ 2)
+      = ∑ j, (∑ i, p i j) * x j ^ 2 + ∑ i, (∑ j, q i j) * u i ^ 2 := by
+    simp only [Finset.sum_add_distrib]
+    congr 1
+    · rw [Finset.sum_comm]
+      apply Finset.sum_congr rfl; intro j _
+      rw [Finset.sum_mul]
+    · apply Finset.sum_congr rfl; intro i _
+      rw [Finset.sum_mul]
+  have h4 : ∑ j, (∑ i, p i j) * x j ^ 2 ≤ ∑ j, ti j * x j ^ 2 :=
+    Finset.sum_le_sum fun j _ => mul_le_mul_of_nonneg_right (hcol j) (sq_nonneg _)
+  have h5 : ∑ i, (∑ j, q i j) * u i ^ 2 ≤ ∑ i, si i * u i ^ 2 :=
+    Finset.sum_le_sum fun i _ => mul_le_mul_of_nonneg_right (hrow i) (sq_nonneg _)
+  linarith
+/-- the matrix `M` as the operator `v ↦ M @ v` on `ℝⁿ → ℝᵐ` -/
+noncomputable def matOp {m n : ℕ} (M : Fin m → Fin n → ℝ) : EuclideanSpace ℝ (Fin n) →ₗ[ℝ] EuclideanSpace ℝ (Fin m) where
+  toFun x := WithLp.toLp 2 (fun i => ∑ j, M i j * x j)
+  map_add' x y := by ext i; simp [mul_add, Finset.sum_add_distrib]
+  map_smul' c x := by
+    ext i; simp only [PiLp.smul_apply, smul_eq_mul, RingHom.id_apply, Finset.mul_sum]
+    apply Finset.sum_congr rfl; intro j _; ring
+
+theorem diag_inv_inner {n : ℕ} (τ : Fin n → ℝ) (x : EuclideanSpace ℝ (Fin n)) :
+    ⟪(StepOp.diag τ).inv x, x⟫ = ∑ j, (τ j)⁻¹ * x j ^ 2 := by
+  simp only [StepOp.diag, mulVecOp, LinearMap.coe_mk, AddHom.coe_mk, PiLp.inner_apply]
+  apply Finset.sum_congr rfl; intro j _; simp; ring
+
+theorem matOp_inner {m n : ℕ} (M : Fin m → Fin n → ℝ) (x : EuclideanSpace ℝ (Fin n)) (u : EuclideanSpace ℝ (Fin m)) :
+    ⟪matOp M x, u⟫ = ∑ i, (∑ j, M i j * x j) * u i := by
+  simp only [matOp, LinearMap.coe_mk, AddHom.coe_mk, PiLp.inner_apply]
+  apply Finset.sum_congr rfl; intro i _; simp; ring
+
+theorem pock_chambolle_diag {m n : ℕ} (M : Fin m → Fin n → ℝ) (τ : Fin n → ℝ) (σ : Fin m → ℝ)
+    (hτ : ∀ j, 0 < τ j) (hσ : ∀ i, 0 < σ i)
+    (p q : Fin m → Fin n → ℝ) (hp : ∀ i j, 0 ≤ p i j) (hq : ∀ i j, 0 ≤ q i j)
+    (hpq : ∀ i j, (M i j) ^ 2 ≤ p i j * q i j)
+    (hcol : ∀ j, τ j * ∑ i, p i j ≤ 1) (hrow : ∀ i, σ i * ∑ j, q i j ≤ 1)
+    (x : EuclideanSpace ℝ (Fin n)) (u : EuclideanSpace ℝ (Fin m)) :
+    2 * |⟪matOp M x, u⟫| ≤ ⟪(StepOp.diag τ).inv x, x⟫ + ⟪(StepOp.diag σ).inv u, u⟫ := by
+  rw [diag_inv_inner, diag_inv_inner, matOp_inner]
+  apply pock_chambolle_sum M (fun j => (τ j)⁻¹) (fun i => (σ i)⁻¹) p q hp hq hpq
+  · intro j
+    rw [← one_div, le_div_iff₀ (hτ j), mul_comm]; exact hcol j
+  · intro i
+    rw [← one_div, le_div_iff₀ (hσ i), mul_comm]; exact hrow i
+
+/-- `Aᴴ` of a real matrix is its transpose -/
+theorem matOp_adjoint {m n : ℕ} (M : Fin m → Fin n → ℝ) (x : EuclideanSpace ℝ (Fin n)) (u : EuclideanSpace ℝ (Fin m)) :
+    ⟪matOp M x, u⟫ = ⟪x, matOp (fun j i => M i j) u⟫ := by
+  rw [matOp_inner, real_inner_comm, matOp_inner]
+  simp only [Finset.sum_mul]
+  rw [Finset.sum_comm]
+  apply Finset.sum_congr rfl; intro j _
+  apply Finset.sum_congr rfl; intro i _
+  ring
+
+end concrete
+
+/-! ### from a one-step Fejér inequality to summability and a 1/N rate -/
+
+theorem fejer_sum_le (D R : ℕ → ℝ) (h : ∀ k, D (k + 1) + R k ≤ D k) (N : ℕ) :
+    D N + ∑ k ∈ Finset.range N, R k ≤ D 0 := by
+  induction N with
+  | zero => simp
+  | succ n ih => rw [Finset.sum_range_succ]; linarith [h n]
+
+theorem fejer_min_le (D R : ℕ → ℝ) (h : ∀ k, D (k + 1) + R k ≤ D k) (hD : ∀ k, 0 ≤ D k)
+    (N : ℕ) (hN : 0 < N) : ∃ j, j < N ∧ R j ≤ D 0 / N := by
+  by_contra hc
+  push Not at hc
+  have hne : (Finset.range N).Nonempty := ⟨0, Finset.mem_range.mpr hN⟩
+  have hlt : ∑ _k ∈ Finset.range N, D 0 / N < ∑ k ∈ Finset.range N, R k :=
+    Finset.sum_lt_sum_of_nonempty hne (fun j hj => hc j (Finset.mem_range.mp hj))
+  have hN' : (0 : ℝ) < N := Nat.cast_pos.mpr hN
+  rw [Finset.sum_const, Finset.card_range, nsmul_eq_mul, mul_div_cancel₀ _ hN'.ne'] at hlt
+  linarith [fejer_sum_le D R h N, hD N]
 
 theorem theta_pos_lt_one (c : ℝ) (hc : 0 < c) :
     0 < 1 / Real.sqrt (1 + c) ∧ 1 / Real.sqrt (1 + c) < 1 := by
